@@ -181,7 +181,7 @@ def _minmax_exact(res, D, Y, kind):
     M = np.abs(D - y1).max()
     tol2 = delta / M if M * M > delta else np.sqrt(delta)
     t_min, t_max = (tol2, tol) if y1 is y_max else (tol, tol2)
-    if y_min > lo + t_min or y_max < hi - t_max:
+    if not (y_min <= lo + t_min and y_max >= hi - t_max):
         return f'(y_min, y_max) = ({y_min!r}, {y_max!r}) vs true ({lo!r}, {hi!r}), tolerances ({t_min:.2e}, {t_max:.2e})'
     return None
 
@@ -287,9 +287,9 @@ def optima_qtt_full(d, q, r, kind, seed, extra):
     y1 = max(abs(res[1]), abs(res[3]))
     M = max(np.abs(D - res[1]).max(), np.abs(D - res[3]).max())
     tol2 = max(tol, (tol * (np.abs(D).max() + y1)) / M if M > 0 else tol)
-    if res[1] > D.min() + tol2 or res[3] < D.max() - tol2:
+    if not (res[1] <= D.min() + tol2 and res[3] >= D.max() - tol2):
         return FAIL(f'(y_min, y_max) = ({res[1]!r}, {res[3]!r}) vs true ({D.min()!r}, {D.max()!r}), tol {tol2:.2e}')
-    if abs(res[1] - ref[1]) > 2 * tol2 or abs(res[3] - ref[3]) > 2 * tol2:
+    if not (abs(res[1] - ref[1]) <= 2 * tol2 and abs(res[3] - ref[3]) <= 2 * tol2):
         return FAIL('values differ from optima_tt')
     return PASS
 
@@ -339,11 +339,11 @@ def _func_check(x, cs):
     x = np.asarray(x)
     if x.shape != (len(cs),) or x.dtype.kind != 'f' or not np.all(np.isfinite(x)):
         return f'result {x!r} is not a finite point of dimension {len(cs)}'
-    if np.any(x < -1.) or np.any(x > 1.):
+    if not (np.all(x >= -1.) and np.all(x <= 1.)):
         return f'point {x.tolist()} outside [-1, 1]^d'
     val = abs(float(np.prod([Pc.chebval(x[k], cs[k]) for k in range(len(cs))])))
     best = float(np.prod([_mode_max(c) for c in cs]))
-    if val < best * (1. - 1e-6):
+    if not val >= best * (1. - 1e-6):
         return f'|f(x)| = {val!r} < max over the cube {best!r} at x = {x.tolist()}'
     return None
 
@@ -361,7 +361,7 @@ def optima_func_rank1(n, seed, kind, fam, k):
     if msg:
         return FAIL(msg)
     X = teneva.optima_func_tt_beam(A, k=k, ret_all=True)
-    if X.ndim != 2 or X.shape[1] != len(n) or not np.array_equal(X[0], x) or np.any(np.abs(X) > 1.):
+    if X.ndim != 2 or X.shape[1] != len(n) or not np.array_equal(X[0], x) or not np.all(np.abs(X) <= 1.):
         return FAIL(f'ret_all: shape {X.shape}, first row {X[0].tolist()} vs {x.tolist()}')
     return PASS
 
